@@ -54,8 +54,8 @@ def showCurie (c : CURIE) : String :=
 /-- sorter that breaks ties in favour of the mapping with prefix `k` (harness hint: the choice the Go
     run made among equal-length namespaces); still a permutation sorted by descending length -/
 def preferSorter (k : List Nat) : Sorter where
-  sort l := (l.filter (fun m => m.pfx == k) ++ l.filter (fun m => !(m.pfx == k))).mergeSort lenGe
-  perm l := (List.mergeSort_perm _ lenGe).trans (List.filter_append_perm _ l)
+  sort l := isort (l.filter (fun m => m.pfx == k) ++ l.filter (fun m => !(m.pfx == k)))
+  perm l := (isort_perm _).trans (List.filter_append_perm _ l)
   sorted _ := mergeSorter.sorted _
 
 /-- all prefixes that a sorter may put first among the mappings with the winning namespace -/
